@@ -15,24 +15,24 @@ package referrer
 //@   name SetOrig/Delete
 //@   in ~/types/referrer
 //@   infunc \)\.Delete$
-//@   requires none-left: forall(k, 0, len($unbox(orig, v1.Index).Manifests), $unbox(orig, v1.Index).Manifests[k].Digest != caller.mDesc.Digest)
+//@   requires none-left: forall(k, 0, len($unbox(orig, v1.Index).Manifests), $unbox(orig, v1.Index).Manifests[k].Digest != $ret(GetDescriptor, 0).Digest)
 //@   requires list-published: caller.rl.Descriptors == $unbox(orig, v1.Index).Manifests
 //@ func (*ReferrerList).Delete(m) (err)
 //@   prop C10
 //@   loop 0 (i)
 //@     invariant range: -1 <= i && i < len(rlM.Manifests)
-//@     invariant suffix-clean: forall(k, i + 1, len(rlM.Manifests), rlM.Manifests[k].Digest != mDesc.Digest)
+//@     invariant suffix-clean: forall(k, i + 1, len(rlM.Manifests), rlM.Manifests[k].Digest != $ret(GetDescriptor, 0).Digest)
 
 //@ callsite (~/types/manifest.Manifest).SetOrig(orig)
 //@   prop C10
 //@   name SetOrig/Add
 //@   in ~/types/referrer
 //@   infunc \)\.Add$
-//@   requires new-is-last: len($unbox(orig, v1.Index).Manifests) >= 1 && $unbox(orig, v1.Index).Manifests[len($unbox(orig, v1.Index).Manifests) - 1].Digest == caller.mDesc.Digest
-//@   requires not-present-before: forall(k, 0, len($unbox(orig, v1.Index).Manifests) - 1, $unbox(orig, v1.Index).Manifests[k].Digest != caller.mDesc.Digest)
+//@   requires new-is-last: len($unbox(orig, v1.Index).Manifests) >= 1 && $unbox(orig, v1.Index).Manifests[len($unbox(orig, v1.Index).Manifests) - 1].Digest == $ret(GetDescriptor, 0).Digest
+//@   requires not-present-before: forall(k, 0, len($unbox(orig, v1.Index).Manifests) - 1, $unbox(orig, v1.Index).Manifests[k].Digest != $ret(GetDescriptor, 0).Digest)
 //@   requires list-published: caller.rl.Descriptors == $unbox(orig, v1.Index).Manifests
 //@ func (*ReferrerList).Add(m) (err)
 //@   prop C10
 //@   loop 0 (d)
 //@     invariant range: -1 <= $idx && $idx < len(rlM.Manifests)
-//@     invariant prefix-clean: forall(k, 0, $idx + 1, rlM.Manifests[k].Digest != mDesc.Digest)
+//@     invariant prefix-clean: forall(k, 0, $idx + 1, rlM.Manifests[k].Digest != $ret(GetDescriptor, 0).Digest)
